@@ -218,6 +218,19 @@ def check(case, ctx: Ctx):
             if loc is not None:
                 tot_amp += _a(loc["amp"])
                 tot_det += _a(loc["det"])
+            if masked and q not in masked and loc is not None and g is not None:
+                # while the mask is on, the global pulses reach the unmasked atoms through their
+                # Local entries: amplitude, detuning AND phase
+                mend = mr.xy_mask_end(chans) or 0
+                lp = _a(loc["phase"])
+                one = ~np.isnan(e["phase"])
+                one[mend:] = False
+                if one.any() and not np.allclose(lp[one], e["phase"][one], rtol=0, atol=1e-9):
+                    i = int(np.flatnonzero(one)[np.argmax(np.abs(lp[one] - e["phase"][one]))])
+                    ctx.fail("C06.atom", "phase:summed_over_channels_same_basis" if n_glob >= 2
+                             else "phase:local_term_under_mask",
+                             f"Local/{basis}/{q} (default view, SLM mask on until {mend}): phase[{i}]={lp[i]}, the "
+                             f"only pulse acting has {e['phase'][i]}", cont=True)
             _cmp(ctx, "C06.atom", "amp:default_view", tot_amp, e["amp"], f"{basis}/{q} Global+Local amp")
             det_cmp("det:default_view", tot_det, e["det"], basis, q, f"{basis}/{q} Global+Local det")
         if g is not None and exp_g.get(basis):
